@@ -102,7 +102,7 @@ def _mk_filter(accepted):
     return tile_filter
 
 
-def make_pyramid(kind, depth, accepted=None, apex=None, coordsys=None):
+def make_pyramid(kind, depth, accepted=None, apex=None, coordsys=None, traversed_first=False):
     from toasty.pyramid import Pyramid, Pos
     from toasty.toast import ToastCoordinateSystem
 
@@ -117,6 +117,12 @@ def make_pyramid(kind, depth, accepted=None, apex=None, coordsys=None):
         pyr = Pyramid.new_toast_filtered(depth, _mk_filter(accepted), coordsys=cs)
     else:
         raise ValueError(kind)
+    if traversed_first:
+        # the whole pyramid is counted and its leaves visited once before it is restricted to the apex (one object,
+        # a history of calls): what those traversals learnt about the whole sky must not outlive the restriction
+        pyr.count_leaf_tiles()
+        pyr.count_operations()
+        pyr.visit_leaves(lambda pos, tile: None, parallel=1)
     if apex is not None and tuple(apex) != (0, 0, 0):
         pyr.subpyramid(Pos(*apex))
     return pyr
@@ -233,7 +239,7 @@ class VisitLeaves(StageHarness):
     stage = "visit_leaves"
 
     def _pyr(self):
-        return make_pyramid(self.kind, self.depth, getattr(self, "accepted", None), getattr(self, "apex", None), getattr(self, "coordsys", None))
+        return make_pyramid(self.kind, self.depth, getattr(self, "accepted", None), getattr(self, "apex", None), getattr(self, "coordsys", None), getattr(self, "traversed_first", False))
 
     def expected_items(self):
         if self._expected is None:
